@@ -538,7 +538,7 @@ fn cmd_tsched(args: &[String]) {
                 continue;
             }
         }
-        reports.push(tsched::explore(s, cap));
+        reports.push(tsched::explore(s, cap, tsched::bound_for(s, arg(args, "--tier").as_deref() == Some("thorough"))));
     }
     let res = serde_json::json!({"prop": prop, "reports": reports, "wall_s": t0.elapsed().as_secs_f64()});
     let text = serde_json::to_string(&res).unwrap();
